@@ -229,7 +229,8 @@ def eval_scalar(case):
     return V, ('scalar', case['scalar'], dtarg is not None), 1
 
 
-FILLFUNCS = {'i': lambda i: i, '2i': lambda i: 2 * i, 'i12': lambda i: i * [1, 2], 'ii7': lambda i: i * i % 7}
+FILLFUNCS = {'i': lambda i: i, '2i': lambda i: 2 * i, 'i12': lambda i: i * [1, 2], 'ii7': lambda i: i * i % 7,
+             'ii': lambda i: i * i}       # with 50 000 rows i*i leaves the int32 range
 
 
 def eval_create(case):
@@ -336,7 +337,11 @@ def build_cases(tier):
     A(product({'sub': ['asarray'], 'src': srcs, 'dtype': [None, 'float32', 'int16'] if q else DTYPE_ARGS,
                'shape': [list(s) for s in SHAPES], 'form': ['list', 'tuple', 'darr'], 'chunklen': [None, 2, 'len-1']
                if q else CHUNKLENS}))
-    subs.append('S3: forms {list, tuple, Darr Array} x 13 shapes x chunklens x dtype arguments')
+    if q:
+        A(product({'sub': ['asarray'], 'src': ['<u8', '<i8'], 'dtype': [None], 'shape': [[3], [5], [5, 2]],
+                   'form': ['list', 'tuple'], 'chunklen': [None, 1, 2]}))
+    subs.append('S3: forms {list, tuple, Darr Array} x 13 shapes x chunklens x dtype arguments (quick: plus 64-bit integer '
+                'lists whose extreme values lie beyond the first chunk)')
     # S4: generators of chunks
     A(product({'sub': ['gen'], 'src': ['<f8', '>i2', '<c8', '|u1'] if q else payload.ALL_DTYPES,
                'dtype': [None, 'float32', 'int64'] if q else DTYPE_ARGS, 'trail': [[], [2], [2, 1]],
@@ -368,6 +373,8 @@ def build_cases(tier):
               valid=okc))
     A(product({'sub': ['create'], 'temp': [True], 'shape': [[5], [3, 2]], 'dtype': ['<f8', '>i2'], 'chunklen': [None, 2],
                'fill': [None, 7], 'fillfunc': [None, 'i']}, valid=okc))
+    A([{'sub': 'create', 'shape': [50000], 'dtype': dt, 'chunklen': cl, 'fill': None, 'fillfunc': 'ii'}
+       for dt in ('<i8', '<f8') for cl in (None, 20000)])
     subs.append(f'S6: create_array/create_temparray: 13 shapes x {len(cdts)} dtypes x 6 chunklens x 8 fills (incl. -0.0, a NumPy zero, False) + 4 fill functions')
     A(product({'sub': ['reject'], 'kind': list(reject_inputs()), 'form': ['ndarray', 'list', 'generator', 'empty']}))
     subs.append('S7: 8 unsupported element types x {ndarray, list, first chunk of a generator, empty ndarray}')
